@@ -2,6 +2,7 @@
      types                                       -> message types that carry a status
      x <exp> <act> <code> <desc> <fe> <pe>       -> one outcome line
      r <exp> <act> <lo> <hi> <desc> <fe> <pe>    -> one outcome line per code in [lo,hi)
+     dt <lo> <hi>                                -> per code: which text defaultText picks (table + index)
    desc: "-" or hex bytes;  fe: "-" or idx.code;  pe: "-" or levels joined by ",",
    level = ptype.code | ptype.code.idx.fcode (outermost first)
    outcome line: <cls> <code> <desc> <fe> <pe> <resp> <in_code> <in_desc> <in_fe> <in_pe>
@@ -80,6 +81,15 @@ let () =
        | ["r"; e; a; lo; hi; d; f; p] ->
          let e = ni e and a = ni a and d = parse_desc d and f = parse_fe f and p = parse_pe p in
          for c = int_of_string lo to int_of_string hi - 1 do one e a (n_of_int c) d f p done
+       | ["dt"; lo; hi] ->
+         for c = int_of_string lo to int_of_string hi - 1 do
+           let r = default_text_ref (n_of_int c) in
+           let ok = if ref_in_table r then "ok" else "out-of-range" in
+           print_endline (ok ^ " " ^ (match r with
+             | TSuccess -> "success" | TMsg i -> "msg " ^ string_of_int (int_of_n i)
+             | TParam i -> "param " ^ string_of_int (int_of_n i) | TField i -> "field " ^ string_of_int (int_of_n i)
+             | TDevice i -> "device " ^ string_of_int (int_of_n i) | TUnknown c -> "unknown " ^ string_of_int (int_of_n c)))
+         done
        | [""] -> ()
        | _ -> print_endline ("error: bad request: " ^ line))
     done
